@@ -48,3 +48,17 @@ Definition run_simpl (tol : float) (s : surface float) : bool * bool * (Z * list
   | Some (s', fl) => (true, fl, surf_data s')
   | None => (false, false, surf_data s)
   end.
+
+(** the simplifier chain (applied until nothing changes, at most 8 passes):
+    (number of passes, total sense flip, final surface) *)
+Fixpoint simpl_chain (fuel : nat) (tol : float) (s : surface float) (passes : nat) (fl : bool)
+  : nat * bool * surface float :=
+  match fuel with
+  | O => (passes, fl, s)
+  | S k => match simplify tol s with
+           | Some (s', f) => simpl_chain k tol s' (S passes) (xorb fl f)
+           | None => (passes, fl, s)
+           end
+  end.
+Definition run_simpl_chain (tol : float) (s : surface float) : Z * bool * (Z * list float) :=
+  let '(n, fl, s') := simpl_chain 8 tol s O false in (Z.of_nat n, fl, surf_data s').
